@@ -198,11 +198,143 @@ fn run_chunk(c: &Chunk) -> (u64, u64, Vec<(String, String, Value)>, Option<Value
     (evals, nontrivial, fails, sample, outcomes)
 }
 
+/// The request alphabet of the reader-reuse histories: (offset from the region start, length).
+fn reuse_alphabet() -> Vec<(i64, usize)> {
+    let end = (PAGES * PAGE) as i64;
+    vec![
+        (5 * PAGE as i64 + 1000, 256), // interior
+        (16, 256),                     // near the region start
+        (end - 256, 256),              // ends exactly at the region end
+        (end - 7, 64),                 // crosses the end after 7 readable bytes
+        (end - 3000, 5000),            // crosses the end after 3000 readable bytes
+        (end + 8, 32),                 // starts behind the end
+        (-5, 24),                      // starts in the guard page in front of the region
+        (3, 5000),                     // long, unaligned, fully readable
+    ]
+}
+
+/// SEQ: ONE reader per strategy serves a whole history of requests (all ordered sequences of <= depth requests
+/// from `reuse_alphabet`); every answer is judged like a fresh reader's, so state a failed or short
+/// request leaves behind in the reader shows up in the next answer.
+fn run_reuse(protnone: bool, depth: usize, only: Option<(Strat, Vec<(i64, usize)>)>) -> (u64, Vec<(String, String, Value)>, std::collections::BTreeSet<u64>) {
+    let mut p = Puppet::spawn();
+    let region = p.pattern(PAGES as usize, if protnone { "protnone" } else { "hole" }, "rw");
+    for (o, l) in FF_SPANS {
+        p.write(region + o, &vec![0xffu8; l as usize]);
+    }
+    p.quiesce();
+    let pid = p.pid;
+    let attached = unsafe {
+        let r = libc::ptrace(libc::PTRACE_ATTACH, pid, 0, 0);
+        if r == 0 {
+            let mut st = 0;
+            libc::waitpid(pid, &mut st, libc::__WALL);
+        }
+        r == 0
+    };
+    let alpha = reuse_alphabet();
+    let mut hists: Vec<Vec<(i64, usize)>> = Vec::new();
+    let mut strats: Vec<Strat> = STRATS.to_vec();
+    if let Some((s, h)) = only {
+        hists.push(h);
+        strats = vec![s];
+    } else {
+        let mut level: Vec<Vec<(i64, usize)>> = vec![vec![]];
+        for _ in 0..depth {
+            let mut next = Vec::new();
+            for h in &level {
+                for a in &alpha {
+                    let mut h2 = h.clone();
+                    h2.push(*a);
+                    next.push(h2);
+                }
+            }
+            hists.extend(next.iter().filter(|h| h.len() >= 2).cloned());
+            level = next;
+        }
+    }
+    let mut evals = 0u64;
+    let mut fails: Vec<(String, String, Value)> = Vec::new();
+    let mut outcomes = std::collections::BTreeSet::new();
+    for s in strats {
+        if s == Strat::Ptrace && !attached {
+            continue;
+        }
+        for h in &hists {
+            // The auto-probing reader settles on a strategy with its first request; when that request lies in
+            // unreadable memory no strategy succeeds and it latches "unavailable" for good (documented in
+            // mem_reader.rs). The statement is about the three strategies, so such histories are not judged
+            // for the composite reader.
+            if s == Strat::Auto && h.first().map(|(off, _)| *off >= (PAGES * PAGE) as i64).unwrap_or(false) {
+                continue;
+            }
+            evals += 1;
+            let answers = guarded(|| {
+                let mut rd = match s {
+                    Strat::Vmem => MemReader::for_virtual_mem(pid),
+                    Strat::File => match MemReader::for_file(pid) {
+                        Ok(r) => r,
+                        Err(_) => return Vec::new(),
+                    },
+                    Strat::Ptrace => MemReader::for_ptrace(pid),
+                    Strat::Auto => MemReader::new(pid),
+                };
+                h.iter()
+                    .map(|(off, len)| {
+                        let mut buf = vec![0xA5u8; *len];
+                        match rd.read((region as i64 + off) as usize, &mut buf) {
+                            Ok(n) => {
+                                buf.truncate(n);
+                                Ok(buf)
+                            }
+                            Err(e) => Err(format!("{e:?}")),
+                        }
+                    })
+                    .collect::<Vec<Result<Vec<u8>, String>>>()
+            });
+            let case = json!({"reuse": true, "protnone": protnone, "strategy": s.name(), "reads": h.iter().map(|(o, l)| json!([o, l])).collect::<Vec<_>>()});
+            match answers {
+                Err(pm) => fails.push((format!("reused-reader/{}/panic", s.name()), format!("panic: {pm}"), case)),
+                Ok(ans) => {
+                    let mut sig = (s as u64) << 32;
+                    for (i, ((off, len), r)) in h.iter().zip(ans.iter()).enumerate() {
+                        sig = sig.wrapping_mul(31).wrapping_add(match r { Ok(v) if v.len() == *len => 1, Ok(_) => 2, Err(_) => 3 });
+                        if let Some((k, m)) = judge(region, protnone, (region as i64 + off) as u64, *len, r) {
+                            let key = format!("reused-reader/{}/{k}", s.name());
+                            if fails.len() < 30 && !fails.iter().any(|f| f.0 == key) {
+                                fails.push((key, format!("{} reader, request #{i} of the history {h:?} (offset from region start, length): {m}", s.name()), case.clone()));
+                            }
+                            break;
+                        }
+                    }
+                    outcomes.insert(sig);
+                }
+            }
+        }
+    }
+    if attached {
+        unsafe {
+            libc::ptrace(libc::PTRACE_DETACH, pid, 0, 0);
+        }
+    }
+    (evals, fails, outcomes)
+}
+
 pub fn run(ctx: &Ctx, rep: &mut Report) {
-    rep.rule = "start alignment 0..7 x length (1..300 + boundary powers quick; 1..4112 + powers thorough) x placement {region start, interior, ends exactly at the region end, crosses the end by 1..8, starts 1..8 bytes before the region} x tail {unmapped, PROT_NONE} x {process_vm_readv, /proc/pid/mem, PTRACE_PEEKDATA, fresh auto-probing reader}; nontrivial = reads touching a region boundary".into();
+    rep.rule = "start alignment 0..7 x length (1..300 + boundary powers quick; 1..4112 + powers thorough) x placement {region start, interior, ends exactly at the region end, crosses the end by 1..8, starts 1..8 bytes before the region} x tail {unmapped, PROT_NONE} x {process_vm_readv, /proc/pid/mem, PTRACE_PEEKDATA, fresh auto-probing reader}, a fresh reader per read; plus SEQ: one reader per strategy serving every ordered history of 2..3 (thorough 4) requests from an 8-letter alphabet (interior, at both ends, crossing the end after 7 / 3000 readable bytes, behind the end, in the guard page in front, long unaligned), every answer judged; nontrivial = reads touching a region boundary, and all reuse histories".into();
     rep.assume("the PROT_NONE tail page was never written, so its true content is zero; the kernel may legitimately let /proc/pid/mem and ptrace read it");
     if let Some(case) = &ctx.replay {
         let protnone = case["protnone"].as_bool().unwrap_or(false);
+        if case["reuse"].as_bool() == Some(true) {
+            let s = STRATS.iter().copied().find(|s| Some(s.name()) == case["strategy"].as_str()).unwrap_or(Strat::File);
+            let h: Vec<(i64, usize)> = case["reads"].as_array().map(|a| a.iter().map(|r| (r[0].as_i64().unwrap_or(0), r[1].as_u64().unwrap_or(1) as usize)).collect()).unwrap_or_default();
+            let (ev, fails, _) = run_reuse(protnone, 0, Some((s, h)));
+            rep.evaluations += ev;
+            for (k, m, c) in fails {
+                rep.violation(&k, &m, c);
+            }
+            return;
+        }
         let mut p = Puppet::spawn();
         let region = p.pattern(PAGES as usize, if protnone { "protnone" } else { "hole" }, "rw");
         for (o, l) in FF_SPANS {
@@ -253,6 +385,23 @@ pub fn run(ctx: &Ctx, rep: &mut Report) {
             rep.violation(&k, &m, c);
         }
     }
+    // reader-reuse histories
+    let depth = if ctx.tier.is_thorough() { 4 } else { 3 };
+    let tails = [false, true];
+    let reuse = par_map(&tails, |_, t| run_reuse(*t, depth, None));
+    let mut reuse_evals = 0;
+    for (ev, fails, outs) in reuse {
+        reuse_evals += ev;
+        rep.evaluations += ev;
+        rep.nontrivial += ev;
+        for o in outs {
+            rep.outcome(o);
+        }
+        for (k, m, c) in fails {
+            rep.violation(&k, &m, c);
+        }
+    }
+    rep.set("reader_reuse_histories", json!({"depth": depth, "request_alphabet": reuse_alphabet().len(), "histories_x_strategies_x_tails": reuse_evals}));
     rep.set("lengths", json!(all.len()));
     rep.states = rep.evaluations;
     rep.transitions = rep.evaluations;
